@@ -541,7 +541,7 @@ func runC02(c *Ctx, r *Run) {
 	r.Require("EVAL-S", 8)
 	r.Require("TABLE-1", 4)
 	r.Require("SECRET-1", 2)
-	r.Require("TABLE-2", 2)
+	r.Require("TABLE-2", 1)
 	r.Require("ID-1", 8)
 }
 
@@ -658,6 +658,54 @@ func checkWholeTableUpdates(c *Ctx, r *Run, fns []*ssa.Function) {
 		allInstrs(fn, func(in ssa.Instruction) {
 			mu, ok := in.(*ssa.MapUpdate)
 			if !ok || !blockInLoop(mu.Block()) {
+				return
+			}
+			// the other spelling: the updated table is built as a fresh map from the old one and then assigned to the field
+			if mk, isMk := mu.Map.(*ssa.MakeMap); isMk {
+				var target *types.Var
+				for _, ref := range *mk.Referrers() {
+					if st, isSt := ref.(*ssa.Store); isSt && st.Val == ssa.Value(mk) {
+						if fa, isFA := st.Addr.(*ssa.FieldAddr); isFA {
+							if fv := fieldVar(derefType(fa.X.Type()), fa.Field); fv != nil {
+								if _, isExt := external[fv]; isExt {
+									target = fv
+								}
+							}
+						}
+					}
+				}
+				if target == nil {
+					return
+				}
+				isOld := func(v ssa.Value) bool {
+					ld, ok := v.(*ssa.UnOp)
+					if !ok {
+						return false
+					}
+					fa, ok := ld.X.(*ssa.FieldAddr)
+					return ok && fieldVar(derefType(fa.X.Type()), fa.Field) == target
+				}
+				fromOld := dependsOn(mu.Value, func(v ssa.Value) bool {
+					if lk, isL := v.(*ssa.Lookup); isL && isOld(lk.X) {
+						return true
+					}
+					if ex, isE := v.(*ssa.Extract); isE && ex.Index == 2 {
+						if nx, isN := ex.Tuple.(*ssa.Next); isN {
+							if rg, isR := nx.Iter.(*ssa.Range); isR && isOld(rg.X) {
+								return true
+							}
+						}
+					}
+					return false
+				})
+				if !fromOld {
+					return
+				}
+				src := rangeKeyOf(mu.Key)
+				nth++
+				r.Check("TABLE-2", fmt.Sprintf("%s|%s|update #%d walks-the-table", c.FuncName(fn), target.Name(), nth), c.Pos(mu.Pos()), src != nil && isOld(src),
+					"the rebuilt "+target.Name()+" has one entry for every entry of the old table",
+					"the replacement for "+target.Name()+" is built by ranging over something other than the old table: entries of parties outside this session are dropped or left on the old sharing")
 				return
 			}
 			ld, ok := mu.Map.(*ssa.UnOp)
